@@ -436,15 +436,15 @@ Proof.
   - destruct (IH _ _ H) as (j & -> & Hj). exists (S j). split; [lia|exact Hj].
 Qed.
 
-Lemma decode_encode c : in_repertoire c = true -> Estruct.cp037 (encode_char c) = c.
+Lemma decode_encode c : in_repertoire c = true -> cp037 (encode_char c) = c.
 Proof.
   unfold in_repertoire, encode_char, cp037_encode. destruct (index_in c cp037_table 0) as [b|] eqn:E; [|discriminate].
   intros _. destruct (index_in_nth c _ _ _ E) as (j & -> & Hj).
-  unfold Estruct.cp037. replace (N.to_nat (0 + N.of_nat j)) with j by lia.
+  unfold cp037. replace (N.to_nat (0 + N.of_nat j)) with j by lia.
   apply nth_error_nth. exact Hj.
 Qed.
 
-Lemma decode_encode_text s : forallb in_repertoire s = true -> map Estruct.cp037 (encode_text s) = s.
+Lemma decode_encode_text s : forallb in_repertoire s = true -> map cp037 (encode_text s) = s.
 Proof.
   induction s as [|c s IH]; intros H; [reflexivity|].
   cbn [forallb] in H. apply andb_prop in H as [Hc Hs].
